@@ -60,7 +60,7 @@ func runC05(c *Ctx) {
 	}
 	c.check(wr == 0, rule1, "the ClientID cell is written only by io.ReadFull", p.instrPos(idCell), "", "the carrier's ClientID is modified after being read from the stream")
 	fromCell := func(v ssa.Value) bool {
-		for {
+		for i := 0; i < 12; i++ {
 			switch x := v.(type) {
 			case *ssa.MakeInterface:
 				v = x.X
@@ -68,23 +68,33 @@ func runC05(c *Ctx) {
 			case *ssa.ChangeType:
 				v = x.X
 				continue
+			case *ssa.Parameter:
+				// a helper with one call site: the argument passed there
+				if a := paramSource(x); a != nil {
+					v = a
+					continue
+				}
+				return false
+			case *ssa.UnOp:
+				if x.X == ssa.Value(idCell) {
+					return true
+				}
+				if fv, ok := x.X.(*ssa.FreeVar); ok {
+					return freeVarBinding(fv) == ssa.Value(idCell)
+				}
+				if al, ok := x.X.(*ssa.Alloc); ok {
+					if par := paramSpill(al); par != nil {
+						v = par
+						continue
+					}
+				}
 			}
-			break
-		}
-		u, ok := v.(*ssa.UnOp)
-		if !ok {
 			return false
-		}
-		if u.X == ssa.Value(idCell) {
-			return true
-		}
-		if fv, ok := u.X.(*ssa.FreeVar); ok {
-			return freeVarBinding(fv) == ssa.Value(idCell)
 		}
 		return false
 	}
 	okE := errNilEdges(tm, readID, 1)
-	all := withAnon(tm)
+	all := helperFns(tm, 2)
 	nUse := 0
 	for _, fn := range all {
 		for _, ci := range callsIn(fn) {
@@ -103,14 +113,12 @@ func runC05(c *Ctx) {
 			nUse++
 			c.check(fromCell(arg), rule1, "turbotunnelMode: "+what+" is the carrier's ClientID", p.instrPos(ci), "", what+" is not the ClientID read from this carrier: packets are attributed to, or taken from, another session")
 			// reachable only after a successful read: for closures, the go statement
-			var site ssa.Instruction = ci
-			if fn != tm {
-				for _, mc := range p.closureSites[fn] {
-					site = mc
-				}
+			site := topSiteIn(tm, ci)
+			var path []*ssa.BasicBlock
+			if site != nil {
+				path = reachableWithout(tm, site, okE)
 			}
-			path := reachableWithout(tm, site, okE)
-			c.check(len(okE) > 0 && path == nil, rule1, "turbotunnelMode: "+what+" used only after the ClientID was read successfully", p.instrPos(ci), "", "the ClientID is used although reading it failed", p.pathString(path)...)
+			c.check(len(okE) > 0 && site != nil && path == nil, rule1, "turbotunnelMode: "+what+" used only after the ClientID was read successfully", p.instrPos(ci), "", "the ClientID is used although reading it failed", p.pathString(path)...)
 		}
 	}
 	if nUse < 3 {
@@ -153,7 +161,7 @@ func runC05(c *Ctx) {
 				w := ci.Common().Args[0]
 				okW := isConn(w) || flows(w, func(x ssa.Value) bool {
 					cc, _, ok := callResult(x)
-					if !ok || cc.Parent() != fn {
+					if !ok || !belongsTo(cc.Parent(), tm) {
 						return false
 					}
 					n := calleeName(cc)
@@ -164,7 +172,7 @@ func runC05(c *Ctx) {
 				})
 				// and nothing else: the writer must not come from a pool / global
 				if okW {
-					if flows(w, func(x ssa.Value) bool {
+					if flowsLocal(w, func(x ssa.Value) bool {
 						if _, ok := x.(*ssa.Global); ok {
 							return true
 						}
@@ -247,11 +255,7 @@ func runC05(c *Ctx) {
 					if calleeName(ci) != want {
 						continue
 					}
-					root := fn
-					for root.Parent() != nil {
-						root = root.Parent()
-					}
-					if root != tm {
+					if !belongsTo(fn, tm) {
 						bad++
 						c.viol(rule2, p.FnName(fn)+" calls "+want, p.instrPos(ci), "the carrier interface of the queue connection is used outside turbotunnelMode, bypassing the token gate")
 					}
